@@ -48,6 +48,10 @@ var relatedNameGroups = [][]genName{
 	{{2, []byte("a.onion")}, {2, []byte(strings.Repeat("a", 56) + ".onion")}, {2, []byte("www.example.com")}},
 	{{2, []byte("xn--caf-dma.example.com")}, {2, []byte("xn--bad!.example.com")}, {2, []byte("example.com")}},
 	{{2, []byte("example.invalidtld")}, {2, []byte("example.com")}, {2, []byte("192.168.0.1")}},
+	// an A-label that does not decode next to one that decodes to text that is not in normalisation form C
+	{{2, []byte("xn--bad!.example.com")}, {2, []byte("xn--ex-8tb.example.com")}},
+	{{2, []byte("xn--0.example.com")}, {2, []byte("www.example.com")}, {2, []byte("a.xn--ex-8tb.example.com")}},
+	{{2, []byte("xn--a.example.com")}, {2, []byte("xn--.example.com")}, {2, []byte("xn--caf-dma.example.com")}},
 	{{2, []byte(strings.Repeat("z", 64) + ".example.com")}, {2, []byte("a.example.com")}, {2, []byte("m.example.com")}},
 }
 
